@@ -374,6 +374,18 @@ fn retry_failed<F: Fn(&str) -> Case>(mut cases: Vec<Case>, reqs: &[String], f: F
     cases
 }
 
+/// a case whose client code panics (typically because the server under test vanished or misbehaved in a way the
+/// client did not expect) is an observation about that input, not the end of the whole run
+fn guarded<F: Fn(&str) -> Case>(req: &str, f: F) -> Case {
+    match std::panic::catch_unwind(std::panic::AssertUnwindSafe(|| f(req))) {
+        Ok(c) => c,
+        Err(e) => {
+            let msg = e.downcast_ref::<String>().cloned().or_else(|| e.downcast_ref::<&str>().map(|s| s.to_string())).unwrap_or_else(|| "panic".into());
+            Case { request: req.to_string(), observed: "runner-panic".into(), oracle: Some(format!("the client side of this case could not complete against the server under test: {msg}")), class: "runner-panic".into() }
+        }
+    }
+}
+
 fn kvs(line: &str, k: &str) -> Option<String> {
     line.split_whitespace().find_map(|t| t.strip_prefix(&format!("{k}=")).map(|s| s.to_string()))
 }
@@ -604,7 +616,7 @@ pub fn run_c14(a: &Args) {
         reqs.push("c14.deadline timeout=20000 proxy=0 header=none proto=none style=keepalive".into());
         reqs.push("c14.deadline timeout=18000 proxy=1 header=800 proto=none style=keepalive".into());
     }
-    let cases = retry_failed(par_cases(a.seed, reqs.len(), |i, _| c14_case(&reqs[i])), &reqs, c14_case);
+    let cases = retry_failed(par_cases(a.seed, reqs.len(), |i, _| guarded(&reqs[i], c14_case)), &reqs, |r| guarded(r, c14_case));
     write_cases(&a.out, &cases).expect("write cases");
     println!("c14: {} cases", cases.len());
 }
@@ -769,9 +781,79 @@ pub fn run_c15(a: &Args) {
     // the boundary configuration "nobody is admitted", through the application entry point and through the Listener
     reqs.push("c15.run proxy=0 allow=11 limit=0 via=app hdrs=1/7;2/7;1/7 login=0".into());
     reqs.push("c15.run proxy=1 allow=11 limit=0 via=listener hdrs=1/0;2/4;1/1 login=0".into());
-    let cases = retry_failed(par_cases(a.seed, reqs.len(), |i, _| c15_case(&reqs[i])), &reqs, c15_case);
+    let cases = retry_failed(par_cases(a.seed, reqs.len(), |i, _| guarded(&reqs[i], c15_case)), &reqs, |r| guarded(r, c15_case));
     write_cases(&a.out, &cases).expect("write cases");
     println!("c15: {} cases", cases.len());
+}
+
+// ---------------------------------------------------------------- descriptor exhaustion (child process)
+
+/// opens /dev/null until the process has no free descriptor, then closes `spare` of them again
+fn exhaust_fds(spare: usize) -> Vec<std::fs::File> {
+    let mut held = vec![];
+    while let Ok(f) = std::fs::File::open("/dev/null") { held.push(f); if held.len() > 100_000 { break; } }
+    for _ in 0..spare.min(held.len()) { held.pop(); }
+    held
+}
+
+/// child process body: a small RLIMIT_NOFILE, the real Listener, descriptor exhaustion at a chosen moment.
+/// `accept`: while the accept loop is running, a connection arrives that cannot be accepted (EMFILE); afterwards a
+/// well-behaved client must still be served.  `drain`: the same during the drain after a stop request; the
+/// in-flight session must still get its Transfer and listen() must return only afterwards.
+pub fn run_lstfd(mode: &str) {
+    // SAFETY: plain setrlimit on this (child) process
+    unsafe { let lim = libc::rlimit { rlim_cur: 160, rlim_max: 160 }; libc::setrlimit(libc::RLIMIT_NOFILE, &lim); }
+    let drain = mode == "drain";
+    let line = rt().block_on(async {
+        let Some(srv) = Srv::start_opt(&SrvOpts { timeout: Duration::from_millis(2500), gated: drain, secret: Some(b"s3cret".to_vec()), ..Default::default() }) else { return "RESULT up=0".to_string() };
+        let mut inflight = None;
+        if drain {
+            let port = srv.port;
+            let ready = Arc::new(Semaphore::new(0));
+            let r2 = ready.clone();
+            inflight = Some(tokio::spawn(async move {
+                let mut c = Cli::connect(port, None).await.expect("connect");
+                let free = Arc::new(Semaphore::new(1));
+                let st = c.login_hold(2, None, Stage::Transferred, Duration::from_millis(6000), Some((Stage::Configuration, r2, free))).await;
+                (st == Stage::Transferred, Instant::now())
+            }));
+            let _ = tokio::time::timeout(Duration::from_millis(2000), ready.acquire()).await;
+            tokio::time::sleep(Duration::from_millis(50)).await;
+            srv.stop.cancel();
+            tokio::time::sleep(Duration::from_millis(100)).await;
+        }
+        // exactly one free descriptor: the hostile client's own socket takes it, the server's accept() finds none
+        let held = exhaust_fds(1);
+        let hostile = std::net::TcpStream::connect(("127.0.0.1", srv.port));
+        tokio::time::sleep(Duration::from_millis(300)).await;
+        let returned_while_exhausted = srv.returned_at().is_some();
+        drop(held);
+        drop(hostile);
+        tokio::time::sleep(Duration::from_millis(150)).await;
+        if drain {
+            srv.gate.add_permits(8);
+            let (transfer, done) = inflight.unwrap().await.unwrap_or((false, Instant::now()));
+            let t0 = Instant::now();
+            while srv.returned_at().is_none() && t0.elapsed() < Duration::from_millis(4000) { tokio::time::sleep(Duration::from_millis(10)).await; }
+            let ret = srv.returned_at();
+            let early = returned_while_exhausted || ret.is_some_and(|r| r + Duration::from_millis(50) < done);
+            format!("RESULT up=1 transfer={} early_return={} returned={}", u8::from(transfer), u8::from(early), u8::from(ret.is_some()))
+        } else {
+            let served = match Cli::connect(srv.port, None).await { Ok(mut c) => c.status(Duration::from_millis(1000)).await.is_some(), Err(_) => false };
+            srv.stop.cancel();
+            format!("RESULT up=1 served={} listener_gone={}", u8::from(served), u8::from(returned_while_exhausted))
+        }
+    });
+    println!("{line}");
+}
+
+/// runs `pv lstfd <mode>` as a child and returns its RESULT line
+fn lstfd_child(mode: &str) -> String {
+    let exe = std::env::current_exe().expect("current exe");
+    match std::process::Command::new(exe).args(["lstfd", mode]).output() {
+        Ok(o) => String::from_utf8_lossy(&o.stdout).lines().find(|l| l.starts_with("RESULT")).unwrap_or("RESULT none").to_string(),
+        Err(e) => format!("RESULT spawn-failed {e}"),
+    }
 }
 
 // ---------------------------------------------------------------- C16
@@ -827,6 +909,13 @@ async fn stall(port: u16, proxy: bool, stage: &str) -> Option<Cli> {
 }
 
 fn c16_case(req: &str) -> Case {
+    if req.contains("stalled=fd-exhaustion") {
+        // in a child process with 160 descriptors: a connection arrives that the server cannot accept for want of a descriptor
+        let r = lstfd_child("accept");
+        let served = r.contains("served=1");
+        return Case { request: "c16.run proxy=0 limiter=0 gap=0 stalled=post detail=fd-exhaustion latency_us=0".into(), observed: if served { "served" } else { "blocked" }.into(),
+            oracle: if served { None } else { Some(format!("after a moment without free descriptors (one connection could not be accepted) a well-behaved client is no longer served: {r}")) }, class: "fd-exhaustion".into() };
+    }
     let proxy = kvn(req, "proxy") == 1;
     let limiter = kvn(req, "limiter") == 1;
     let st = kvs(req, "stalled").unwrap();
@@ -873,7 +962,8 @@ pub fn run_c16(a: &Args) {
         let st: Vec<&str> = (0..k).map(|_| *rng.pick(&menu)).collect();
         reqs.push(format!("c16.run proxy={} limiter={} gap={} stalled={}", u8::from(proxy), u8::from(rng.chance(1, 2)), if rng.chance(1, 6) { 1300 } else { 0 }, if st.is_empty() { "-".to_string() } else { st.join(",") }));
     }
-    let cases = retry_failed(par_cases(a.seed, reqs.len(), |i, _| c16_case(&reqs[i])), &reqs, c16_case);
+    reqs.push("c16.run proxy=0 limiter=0 gap=0 stalled=fd-exhaustion".into());
+    let cases = retry_failed(par_cases(a.seed, reqs.len(), |i, _| guarded(&reqs[i], c16_case)), &reqs, |r| guarded(r, c16_case));
     write_cases(&a.out, &cases).expect("write cases");
     println!("c16: {} cases", cases.len());
 }
@@ -885,6 +975,17 @@ const C17_TIMEOUT_MS: u64 = 2000;
 fn c17_case(req: &str) -> Case {
     if req.starts_with("c17.race") { return c17_race(req); }
     if req.starts_with("c17.app") { return c17_app(req); }
+    if req.starts_with("c17.fd") {
+        let r = lstfd_child("drain");
+        let (transfer, early, ret) = (r.contains("transfer=1"), r.contains("early_return=1"), r.contains("returned=1"));
+        let mut why = vec![];
+        if !r.contains("up=1") { why.push(format!("child run failed: {r}")); }
+        if !transfer { why.push("the in-flight client cooperated but never received its Transfer (a connection that could not be accepted for want of a descriptor arrived during the drain)".to_string()); }
+        if early { why.push("listen() returned while the in-flight session was still running".into()); }
+        if !ret { why.push("listen() did not return".into()); }
+        return Case { request: "c17.run inflight=1 late=1 stages=backend open_after=300 via=fd-exhaustion".into(), observed: format!("late=0 early_return={} returned={}", u8::from(early), u8::from(ret)),
+            oracle: if why.is_empty() { None } else { Some(why.join("; ")) }, class: "fd-exhaustion-during-drain".into() };
+    }
     let late = kvn(req, "late") as usize;
     let st = kvs(req, "stages").unwrap();
     let stages: Vec<String> = if st == "-" { vec![] } else { st.split(',').map(String::from).collect() };
@@ -905,7 +1006,8 @@ fn c17_case(req: &str) -> Case {
         for s in &stages {
             let (s, ready, go, port) = (s.clone(), ready.clone(), go.clone(), srv.port);
             tasks.push(tokio::spawn(async move {
-                let mut c = Cli::connect(port, None).await.expect("connect");
+                // a client that cannot even connect counts as a cooperating client that never got its Transfer
+                let Ok(mut c) = Cli::connect(port, None).await else { ready.add_permits(1); return (true, false, None); };
                 let long = Duration::from_millis(3 * timeout_ms);
                 if proxy && s != "pre-header" && s != "accepted" { c.raw(&header_menu(0)).await; }
                 match s.as_str() {
@@ -943,7 +1045,7 @@ fn c17_case(req: &str) -> Case {
         let mut why = vec![];
         let mut last_done: Option<Instant> = None;
         for (i, t) in tasks.into_iter().enumerate() {
-            let (coop, transferred, done) = t.await.expect("client task");
+            let (coop, transferred, done) = t.await.unwrap_or((true, false, None));
             if coop && !transferred { why.push(format!("in-flight client {i} ({}) cooperated but never received its Transfer", stages[i])); }
             if let Some(d) = done { if last_done.is_none_or(|l| d > l) { last_done = Some(d); } }
         }
@@ -1079,6 +1181,7 @@ pub fn run_c17(a: &Args) {
     reqs.push(format!("c17.race trials={}", if a.thorough { 64 } else { 16 }));
     // the application entry point: ctrl-c (SIGINT) while a session is in flight
     reqs.push("c17.app".into());
+    reqs.push("c17.fd".into());
     // a session that legitimately outlasts the DEFAULT connection timeout (10 s) under a longer configured one
     reqs.push("c17.run inflight=2 late=1 stages=backend,mid-login open_after=11500 timeout=15000".into());
     for _ in 0..a.cases {
@@ -1087,7 +1190,7 @@ pub fn run_c17(a: &Args) {
         let st: Vec<&str> = (0..k).map(|_| *rng.pick(if proxy { &["accepted", "pre-header", "pre-header", "mid-login", "backend", "transfer"][..] } else { &["accepted", "mid-login", "backend", "backend", "transfer"][..] })).collect();
         reqs.push(format!("c17.run inflight={k} late={} stages={} open_after={} proxy={} restart={} again={}", rng.below(3), if st.is_empty() { "-".to_string() } else { st.join(",") }, rng.pick(&[0u64, 0, 300, 600]), u8::from(proxy), u8::from(rng.chance(1, 3)), u8::from(rng.chance(1, 4))));
     }
-    let cases = retry_failed(par_cases(a.seed, reqs.len(), |i, _| c17_case(&reqs[i])), &reqs, c17_case);
+    let cases = retry_failed(par_cases(a.seed, reqs.len(), |i, _| guarded(&reqs[i], c17_case)), &reqs, |r| guarded(r, c17_case));
     write_cases(&a.out, &cases).expect("write cases");
     println!("c17: {} cases", cases.len());
 }
